@@ -97,26 +97,6 @@ pub proof fn lemma_seq_to_map_val<K, V>(s: Seq<(K, V)>, i: int)
     if i < p.len() { lemma_seq_to_map_val(p, i); assert(p[i] == s[i]); assert(s[i].0 != s[s.len() - 1].0); }
 }
 
-// rem is the entry sequence of `m.iter()` (the facts vstd provides about `BTreeMap::iter().remaining()`).
-pub open spec fn entries_of<K, V>(rem: Seq<(&K, &V)>, m: Map<K, V>) -> bool {
-    &&& rem.no_duplicates()
-    &&& rem.len() == m.len()
-    &&& forall|i: int| 0 <= i < rem.len() ==> m.contains_key(*(#[trigger] rem[i]).0) && m[*rem[i].0] == *rem[i].1
-    &&& forall|k: K| #[trigger] m.contains_key(k) ==> exists|i: int| 0 <= i < rem.len() && *(#[trigger] rem[i]).0 == k && *rem[i].1 == m[k]
-}
-
-pub proof fn lemma_entries_distinct<K, V>(rem: Seq<(&K, &V)>, m: Map<K, V>)
-    requires entries_of(rem, m),
-    ensures forall|i: int, j: int| 0 <= i < j < rem.len() ==> *(#[trigger] rem[i]).0 != *(#[trigger] rem[j]).0,
-{
-    assert forall|i: int, j: int| 0 <= i < j < rem.len() implies *(#[trigger] rem[i]).0 != *(#[trigger] rem[j]).0 by {
-        if *rem[i].0 == *rem[j].0 {
-            assert(*rem[i].1 == *rem[j].1);
-            assert(rem[i] == rem[j]);
-        }
-    }
-}
-
 // `m.iter().map(f).collect::<BTreeMap<_,_>>()` where f keeps the key: same domain, value = f's value.
 pub proof fn lemma_collected<K, V, W>(m: Map<K, V>, rem: Seq<(&K, &V)>, s: Seq<(K, W)>, r: Map<K, W>)
     requires
